@@ -223,3 +223,41 @@ func ZZ_C13_LocalDecode() {
 		zzverif.Assert(e1 != nil || (x.Len() == y.Len() && x.DataSize() == y.DataSize() && n1 == n2), "msg-val")
 	}
 }
+
+// ZZ_C13_HeaderAgrees: the sized decoders (list table, message table, struct, bytes, string) against
+// the probe, on arbitrary headers up to the widest size fields (two 5-byte sizes): whenever the
+// decoder accepts with size n, n lies inside the input, the probe accepts with the same n, and the
+// decision and n do not depend on one more byte in front of the value.
+func ZZ_C13_HeaderAgrees() {
+	b := zzverif.Bytes(zzverif.Param("L"))
+	dec := func(x []byte) (int, error) {
+		switch zzverif.Param("F") {
+		case 0:
+			_, n, err := decode.DecodeListTable(x)
+			return n, err
+		case 1:
+			_, n, err := decode.DecodeMessageTable(x)
+			return n, err
+		case 2:
+			_, n, err := decode.DecodeStruct(x)
+			return n, err
+		case 3:
+			_, n, err := decode.DecodeBytes(x)
+			return n, err
+		}
+		_, n, err := decode.DecodeString(x)
+		return n, err
+	}
+	n, err := dec(b)
+	zzverif.Assume(err == nil)
+	zzverif.Reach("accepted")
+	zzverif.Assert(n >= 0 && n <= len(b), "decoder-size-in-range")
+	_, n2, err2 := decode.DecodeTypeSize(b)
+	zzverif.Assert(err2 == nil, "probe-accepts")
+	zzverif.Assert(n2 == n, "probe-size")
+	if n > 0 { // (an empty input is "no value": nothing to put a prefix in front of)
+		pb := append([]byte{zzverif.Byte()}, b...)
+		n3, err3 := dec(pb)
+		zzverif.Assert(err3 == nil && n3 == n, "prefixed-decoder")
+	}
+}
